@@ -2,7 +2,9 @@
 //   wallet_balance (C44)  histories of receives / sends / double-spends / maturation / reorgs; after every step the wallet's balances and
 //                         spendable-coin list are compared with the shadow ledger.
 //   wallet_create  (C41)  random CreateTransaction requests on an evolving wallet; request, model coin facts, result and the node's
-//                         test-accept verdict are logged for the offline oracle (checks/C41.py); a few invariants are also checked online.
+//                         test-accept verdict are logged for the offline oracle (checks/C41.py).
+// Parameters (--p): steps / ops (per case), tiny=1 (directed 64-byte-transaction corner, off), aps_sffo=1 (do not steer away from the
+// avoid-partial-spends retry of subtract-fee requests for the whole balance; off while Assume() is fatal in this build).
 //   wallet_bump    (C56)  fee bumps (feebumper::CreateRateBumpTransaction + SignTransaction + CommitTransaction) of wallet transactions,
 //                         incl. refusal scenarios with before/after wallet dumps; logged for checks/C56.py.
 #include <common/vh.h>
